@@ -8,7 +8,10 @@ mod scanner;
 
 use self::scanner::Scanner;
 
-pub type InterpSlot = (usize, usize);
+// An `InterpSlot` is the start and end of an interpolation slot, as offsets in
+// characters of the unescaped string, and the location of the slot in the
+// source.
+pub type InterpSlot = (usize, usize, (usize, usize));
 
 #[derive(Clone, Debug, PartialEq)]
 pub enum Token {
@@ -188,6 +191,7 @@ impl<'input> Lexer<'input> {
         let mut first_hex_char = None;
 
         let mut cur_interpolation_start = 0;
+        let mut cur_interpolation_loc = (0, 0);
         let mut interpolation_slots = vec![];
         let mut interpolation_brace_count = 0;
 
@@ -203,6 +207,7 @@ impl<'input> Lexer<'input> {
                     } else if c == '$' {
                         if interpolate {
                             cur_interpolation_start = chars.len();
+                            cur_interpolation_loc = cur_loc;
                             state = StrScanState::Interpolate;
                             chars.push('$');
                         } else {
@@ -275,7 +280,11 @@ impl<'input> Lexer<'input> {
 
                     if interpolation_brace_count == 0 {
                         // We shorten the slot to ignore the delimiters.
-                        let slot = (cur_interpolation_start, chars.len()+1);
+                        let slot = (
+                            cur_interpolation_start,
+                            chars.len()+1,
+                            cur_interpolation_loc,
+                        );
                         interpolation_slots.push(slot);
                         state = StrScanState::None;
                     }
